@@ -172,10 +172,11 @@ class C12(Prop):
             'times, run-level and test-level tags, also start-less / unfinished tests) and control calls (startTestRun, stopTestRun, stop, done, '
             'shouldStop), 0-3 raising target calls per case (any call: time, startTest, tags, the outcome, stopTest, every control call); explicit times are fresh tz-aware '
             'datetime objects drawn from a tiny pool, so equal instants in consecutive events and across threads - e.g. a test starting exactly on its predecessor\'s end - '
-            'are frequent, also time(None); tags() with empty sets and with the same tag added and removed; failfast assigned on some forwarders; realisation hints that leave '
+            'are frequent, also time(None); tags() with empty sets and with the same tag added and removed; a second outcome inside one startTest / stopTest bracket '
+            '(what stdlib unittest emits for a failing body + failing tearDown), with test-local tags buffered and more tags() / time() between the two; failfast assigned on some forwarders; realisation hints that leave '
             'the prediction unchanged: all threads report the very same test objects / equal-but-not-identical ones, the empty test id, outcome arguments positional or by '
             'keyword, err/reason instead of details (details=None), a second target object behind the same semaphore; '
-            'schedules: quick = every schedule with <= 2 pre-emptions of 6 small base programs '
+            'schedules: quick = every schedule with <= 2 pre-emptions of 7 small base programs '
             '+ random / bursty / few-pre-emption schedules of random programs; thorough adds every schedule with <= 3 pre-emptions for 2 threads and <= 2 for 3 '
             'threads, each also with every single fault position. non-trivial = at least two threads have a critical section; '
             'distinct = distinct input S-expression')
@@ -186,6 +187,12 @@ class C12(Prop):
                    'only operations on the shared semaphore and target are scheduling points: each forwarder is confined to its thread, as the property assumes; CPython pre-emption inside real.py is not explored',
                    'the target has no failfast attribute (the extra stop() of ExtendedToOriginalDecorator under failfast belongs to C04)',
                    'a fault is an exception raised by the target call - an Exception subclass or, depending on the position, a BaseException that is not an Exception (as KeyboardInterrupt is); faults are addressed per thread (k-th call of thread i), so a plan is schedule-independent',
+                   'a fault leaves the call the forwarder makes on self.result = ExtendedToOriginalDecorator(target); a TypeError raised INSIDE an inner target\'s outcome method that '
+                   'was called with details= is not such a fault: the decorator takes every TypeError for "old signature" and calls the method again with exc_info (the outcome arrives '
+                   'twice, nothing propagates - audit/C12 violation 2); that retry is the decorator\'s fallback contract (C08), not the forwarder\'s, and is outside C12\'s fault alphabet',
+                   'C12 identifies "that test\'s tags" with the deltas the thread\'s OWN forwarder buffered (what _merge_tags computes, transcribed in Conc.mergeTags - also for a single tags() '
+                   'call that names a tag in both sets, which is generated); that these deltas reproduce the reporter\'s current_tags on the target is C17\'s clause, whose quantifier demands '
+                   'disjoint new/gone sets: for an overlapping call _merge_tags drops the removal (audit/C12 violation 1: tags({db,slow},{slow}) after a run-level slow reaches the target as +db only) - recorded, not a C12 clause',
                    'ThreadsafeForwardingResult.wasSuccessful() forwards to the target without the semaphore; it is a query outside the statement and is not generated']
 
     manifest = {
@@ -193,7 +200,8 @@ class C12(Prop):
                 'schedule (arbitrary list of thread ids, unbounded): the log of the shared target/semaphore is a sequence of whole critical sections, each one '
                 'operation of one thread (one well-shaped block: time, startTest, time, tags, outcome, stopTest - cut only directly after a raising call, a '
                 'raising outcome still followed by stopTest), never interleaved; per thread exactly its own sequential call sequence (every outcome once, in order, '
-                'own start time and tags); the semaphore is free at every operation boundary; no reachable state is stuck and every run terminates. The hand-written '
+                'own start time and tags - EVERY outcome of a test replays the tags buffered for it, also a second outcome inside one startTest/stopTest bracket (C12_tags_survive_outcome, '
+                'C12_second_outcome_same_tags); stopTest() forgets the test-local ones); the semaphore is free at every operation boundary; no reachable state is stuck and every run terminates. The hand-written '
                 'model is tied to the code by a differential check that drives real ThreadsafeForwardingResult objects in real threads under a deterministic '
                 'scheduler (bounded-pre-emption exhaustive + random schedules, injected faults), and by a translator tie: the order and try/finally structure of '
                 '_add_result_with_semaphore, startTestRun/stopTestRun/stop/done/shouldStop, startTest/stopTest/tags/time are re-read from real.py on every run '
@@ -281,7 +289,13 @@ class C12(Prop):
         for _ in range(rng.choice([0, 0, 1, 1, 2])):
             ops.append(self.gen_tags(rng))
         ops.append(['outcome', rng.choice(KINDS), tid])
-        if wild and rng.random() < 0.3:
+        if rng.random() < (0.3 if wild else 0.2):
+            # a second outcome inside the same startTest / stopTest bracket (stdlib unittest: failing body + failing tearDown gives
+            # addFailure + addError), possibly with more tags() / time() in between
+            if rng.random() < 0.3:
+                ops.append(self.gen_tags(rng))
+            if rng.random() < 0.2:
+                ops.append(self.gen_time(rng))
             ops.append(['outcome', rng.choice(KINDS), tid])
         if rng.random() < 0.2:
             ops.append(self.gen_tags(rng))
@@ -363,6 +377,9 @@ class C12(Prop):
             # a test that starts exactly on the instant its predecessor ended on, next to a thread using the same instants
             [[[['time', some(1)]] + t(0) + [['startTest', 1], ['time', some(1)], ['outcome', 'skip', 1], ['stopTest', 1]], []],
              [[['time', some(1)]] + t(0, 'uxsuccess'), []]],
+            # two outcomes inside one bracket (failing body + failing tearDown): both blocks carry the test's own tags
+            [[[['tags', [0], []], ['startTest', 0], ['tags', [1], [0]], ['outcome', 'failure', 0], ['outcome', 'error', 0], ['stopTest', 0]] + t(1), []],
+             [[['startTest', 0], ['tags', [2], []], ['outcome', 'error', 0], ['tags', [3], []], ['outcome', 'success', 0], ['stopTest', 0]], [6]]],
         ]
 
     def systematic(self, programs, k):
@@ -407,6 +424,12 @@ class C12(Prop):
             for f in range(12):
                 yield from self.systematic([[[x[0], [f] if j == ti else [], True] for j, x in enumerate(ff)]], 1)
         yield from self.systematic([three], 2)
+        # two outcomes inside one startTest / stopTest bracket, test-local tags buffered: <= 2 pre-emptions, and every single fault position
+        twice = [[[['startTest', 0], ['tags', [1], []], ['outcome', 'failure', 0], ['outcome', 'error', 0], ['stopTest', 0]] + t(1), []],
+                 [[['tags', [2], []]] + t(0, 'skip'), []]]
+        yield from self.systematic([twice], 2)
+        for f in range(16):
+            yield from self.systematic([[[twice[0][0], [f]], twice[1]]], 1)
         # every single fault position, <= 2 pre-emptions (2 threads) / <= 1 (3 threads)
         for base, k in ((two, 2), (three, 1)):
             counts = self.step_counts(base)
@@ -436,6 +459,23 @@ class C12(Prop):
             f.append('tag-added-and-removed')
         if any(not isinstance(o, str) and o[0] == 'tags' and not o[1] and not o[2] for t in threads for o in t[0]):
             f.append('tags-both-empty')
+        for t in threads:           # two outcomes between one startTest and the next stopTest, with test-local tags buffered at the second
+            inside = outs = False
+            local = 0
+            for o in t[0]:
+                k = o if isinstance(o, str) else o[0]
+                if k == 'startTest':
+                    inside, outs, local = True, 0, 0
+                elif k == 'stopTest' or k == 'startTestRun':
+                    inside = False
+                elif k == 'tags' and inside and (o[1] or o[2]):
+                    local += 1
+                elif k == 'outcome' and inside:
+                    outs += 1
+                    if outs == 2:
+                        f.append('two-outcomes-one-bracket')
+                        if local:
+                            f.append('second-outcome-with-test-tags')
         nt = sum(1 for t in threads for o in t[0] if not isinstance(o, str) and o[0] == 'outcome')
         f.append('outcomes=%s' % (nt if nt < 7 else '7+'))
         f.append('faults=%d' % sum(len(t[1]) for t in threads))
